@@ -13,7 +13,7 @@ EXPLANATION = ('llsym executes the real _getnumadr / mj_hashString / mj_name2id 
                '(b) Lookup: N objects of one type with fully symbolic byte-string names (possibly empty, distinct when non-empty), the hash table filled by the '
                'linear-probing rule of namelist() re-stated in SMT, symbolic query string: name2id(id2name(j)) = j, id2name = NULL iff unnamed/out of range, '
                'name2id(q) = -1 iff q is no name; every table/string access in bounds.')
-BOUNDS = {'quick': {'layout': 'all types, counts in [0, 2^20]', 'lookup': 'N<=2 names of <=2 bytes, query <=2 bytes'}, 'thorough': {'lookup': 'N<=3 names of <=2 bytes; N<=2 names of <=3 bytes'}}
+BOUNDS = {'quick': {'layout': 'all types, counts in [0, 2^20]', 'lookup': 'N<=2 names of <=3 bytes; N=3 names of 1 byte'}, 'thorough': {'lookup': 'N<=3 names of <=2 bytes; N<=2 names of <=3 bytes'}}
 OUTSIDE = 'the C++ side (namelist/addtolist) is modelled, not executed: its insertion rule is re-stated in SMT (trusted model); names longer than the bound.'
 ASSUMPTIONS = ['names_map filled by linear probing from mj_hashString(name, 2N), empty names skipped (namelist in user_model.cc)', 'names are NUL-terminated, non-empty names pairwise distinct (compiler rejects duplicates)',
                'nnames_map = mjLOAD_MULTIPLE * sum of all counts (mj_makeModel)', 'strncmp modelled byte-wise per its C contract']
@@ -258,7 +258,7 @@ def unit_lookup(tier, N, slen, tname='mjOBJ_GEOM', nbody=1):
 
 def units(tier):
     u = [('layout', 'unit_layout', {})]
-    cfg = [(1, 1), (1, 2), (2, 1), (2, 2)] if tier == 'quick' else [(1, 1), (1, 2), (2, 1), (2, 2), (3, 1), (3, 2), (2, 3)]
+    cfg = [(1, 1), (1, 2), (2, 1), (2, 2), (3, 1), (2, 3)] if tier == 'quick' else [(1, 1), (1, 2), (2, 1), (2, 2), (3, 1), (3, 2), (2, 3)]
     for N, sl in cfg: u.append(('lookup_N%d_len%d' % (N, sl), 'unit_lookup', {'N': N, 'slen': sl}))
     if tier == 'thorough': u.append(('lookup_body_N2_len2', 'unit_lookup', {'N': 2, 'slen': 2, 'tname': 'mjOBJ_KEY', 'nbody': 2}))
     return u
